@@ -429,6 +429,43 @@ def run(ctx):
                     if host is gi:
                         hit_touch = True
                         where = host.loc(c)
+    # every kind of hit refreshes recency: a plain hit, and a hit whose entry was first validated (otherwise a just-used file is the
+    # first to be evicted).  Decided on the paths of the per-URI loop body in the two hit scenarios.
+    from .fc import scenario_paths as _sp
+    body_loops_ = [lp for lp in loops if any(a in list(ast.walk(lp)) for a in appends)]
+    toucher_names = {t.name for t in touchers} | {t.name for t in reach_touch if t not in (gm, gi)}
+
+    def hit_events(with_validate):
+        def oracle(test, e):
+            if isinstance(test, ast.Call) and call_name(test).endswith("_is_in_cache"):
+                return True
+            if isinstance(test, ast.Compare) and len(test.ops) == 1 and isinstance(test.left, ast.Constant) and test.left.value == "validate":
+                return with_validate if isinstance(test.ops[0], ast.In) else (not with_validate if isinstance(test.ops[0], ast.NotIn) else None)
+            if isinstance(test, ast.Call) and isinstance(test.func, ast.Name) and e.get("@fn:" + test.func.id):
+                return True         # the validator accepts
+            return None
+
+        def ev_of(c):
+            if isinstance(c.func, ast.Attribute) and isinstance(c.func.value, ast.Name) and c.func.value.id == "self" \
+                    and c.func.attr in toucher_names:
+                return "touch"
+            return "miss" if call_name(c) == "CacheMiss" else None
+        # the looked-up validation function is whatever local is bound from the directive table
+        env0 = {}
+        for n_ in ast.walk(body_loops_[0]):
+            if isinstance(n_, ast.Assign) and len(n_.targets) == 1 and isinstance(n_.targets[0], ast.Name) \
+                    and isinstance(n_.value, ast.Subscript) and "validate" in ast.unparse(n_.value):
+                env0["@fn:" + n_.targets[0].id] = True
+        return [ev_ for _, ev_ in _sp(body_loops_[0].body, env0, oracle, ev_of)]
+    if len(body_loops_) == 1 and toucher_names:
+        plain, validated = hit_events(False), hit_events(True)
+        okh = bool(plain) and bool(validated) and all("touch" in e_ and "miss" not in e_ for e_ in plain + validated)
+        ctx.expect(okh, "R18.4", "get_cache_misses[every hit is touched]",
+                   "a present entry that is served (no validation requested, or validation passed) has its time stamp refreshed on every path",
+                   gm.loc(), derived=f"plain hit: {sorted({'+'.join(e_) or 'nothing' for e_ in plain})}; validated hit: "
+                                     f"{sorted({'+'.join(e_) or 'nothing' for e_ in validated})}")
+    else:
+        ctx.unsure("R18.4", "get_cache_misses[every hit is touched]", "per-URI loop or touching method not identified", gm.loc())
     ev_calls = [c for c in calls(gi.node) if call_name(c) == "self._cache_eviction"]
     gm_calls = [c for c in calls(gi.node) if call_name(c) == "self.get_cache_misses"]
     before = bool(ev_calls) and bool(gm_calls) and all(g.lineno < e.lineno for g in gm_calls for e in ev_calls)
@@ -599,6 +636,36 @@ def run(ctx):
             ok_enl = False
     ctx.expect(ok_enl and len(enl) <= 1, "R18.5", "__getitem__[enlargement]",
                "the limit is raised only when the requested set alone exceeds it", gi.loc(enl[0]) if enl else gi.loc())
+    # the new limit must exceed the request by a margin: the byte limit is stored as a floating point number of gigabytes and read
+    # back through int(gb * GIGABYTE), which truncates - without slack the limit can come back one byte below the request, and the
+    # eviction that follows (strictly `size > limit`) deletes the files that were just returned
+    cfg_cls = p.get_class("filecache.cache_object.CacheConfig") if "filecache.cache_object.CacheConfig" in p.classes else None
+    getter = next((m for m in (p.all_functions) if m.name == "max_size_bytes" and m.is_property and not m.is_setter), None)
+    truncating = getter is not None and any(isinstance(c, ast.Call) and isinstance(c.func, ast.Name) and c.func.id == "int"
+                                            for c in ast.walk(getter.node))
+    for e in enl:
+        v = e.value
+        req_names = {x.id for a_ in [n for n in own_walk(gi.node) if isinstance(n, ast.If) and e in [y for b in n.body for y in ast.walk(b)]]
+                     for x in ast.walk(a_.test) if isinstance(x, ast.Name)}
+        margin = None
+        if isinstance(v, ast.Name) and v.id in req_names:
+            margin = False
+        elif isinstance(v, ast.BinOp) and isinstance(v.op, ast.Add):
+            sides = [v.left, v.right]
+            req = [x for x in sides if isinstance(x, ast.Name) and x.id in req_names]
+            other = [x for x in sides if x not in req]
+            if len(req) == 1 and len(other) == 1:
+                o = other[0]
+                val = o.value if isinstance(o, ast.Constant) else None
+                if isinstance(o, ast.Name):
+                    try:
+                        val = p.const_global(gi.module, o.id)
+                    except Exception:
+                        val = None
+                margin = (val > 0) if isinstance(val, (int, float)) else None
+        ctx.expect(margin if truncating else (True if margin is not False else None), "R18.5", "__getitem__[enlargement margin]",
+                   "the enlarged limit is the requested size plus a positive margin (the limit round-trips through a truncating float "
+                   "conversion)", gi.loc(e), derived=ast.unparse(v))
     adds = [c for c in calls(gi.node) if call_name(c) == "self._add_to_cache"]
     ctx.expect(bool(ev_calls) and bool(adds) and all(a.lineno < e.lineno for a in adds for e in ev_calls), "R18.5",
                "__getitem__[eviction after registration]", "eviction runs after the new files are registered", gi.loc())
@@ -632,8 +699,8 @@ def run(ctx):
     ctx.require_count("R18.1", 8)
     ctx.require_count("R18.2", 6)
     ctx.require_count("R18.3", 9)
-    ctx.require_count("R18.4", 3)
-    ctx.require_count("R18.5", 9)
+    ctx.require_count("R18.4", 4)
+    ctx.require_count("R18.5", 10)
     ctx.require_count("R18.6", 2)
     ctx.functions_analysed.update({f.qualname: 1 for f in fc_funcs})
     ctx.calls_resolved += cg.stats()["call_sites_resolved"]
